@@ -538,11 +538,13 @@ class JunctionCompartment(Compartment):
             total_outflow = 1.0
 
         # Finally, assign the inflow to the outflow proportionately accounting for the total outflow downscaling
+        # The proportion is normalised first (as in the initial flush): multiplying the inflow by a vanishingly small (denormal)
+        # proportion before dividing by the total would round the product and create or lose people
         for frac, link in zip(outflow_fractions, self.outlinks):
             if self.duration_group:
-                link._vals[:, ti] = net_inflow * frac / total_outflow
+                link._vals[:, ti] = net_inflow * (frac / total_outflow)
             else:
-                link.vals[ti] = net_inflow * frac / total_outflow
+                link.vals[ti] = net_inflow * (frac / total_outflow)
 
     def initial_flush(self) -> None:
         """
